@@ -47,9 +47,11 @@ CallDone ==
   /\ ok' = ok + (IF Ev.code = 0 THEN 1 ELSE 0) /\ UNCHANGED <<issued, entered, calls, exps>> /\ Step
 \* non-vacuity: on a healthy connection every call of the workload completed OK
 End == Is("End") /\ ok = calls /\ Ev.finished = Ev.started /\ UNCHANGED <<issued, entered, ok, calls, exps>> /\ Step
-Known == {"Reset", "CallStart", "HEnter", "HRecheck", "CallDone", "End", "CallHang", "WorkloadHang", "SetupFailed"}
+\* what a finished call handed to its caller (status, reply metadata) is still the same when the workload is over
+Held == Is("Held") /\ Ev.changed = 0 /\ UNCHANGED <<issued, entered, ok, calls, exps>> /\ Step
+Known == {"Reset", "CallStart", "HEnter", "HRecheck", "CallDone", "End", "Held", "CallHang", "WorkloadHang", "SetupFailed"}
 Skip == l <= N /\ Ev.ev \notin Known /\ UNCHANGED <<issued, entered, ok, calls, exps>> /\ Step
-Next == Reset \/ CallStart \/ HEnter \/ HRecheck \/ CallDone \/ End \/ Skip
+Next == Reset \/ CallStart \/ HEnter \/ HRecheck \/ CallDone \/ End \/ Held \/ Skip
 Spec == Init /\ [][Next]_vars
 Accepted == PrintT(<<"HWM", TLCGet(1), N>>) /\ TRUE
 =============================================================================
